@@ -337,6 +337,9 @@ theorem sentOnly_obj {c c' : Core} (h : SentOnly c c') (i : Nat) :
   · split
     · rfl
     · simp
+@[simp] theorem hbOffU_c (w : World) : (hbOffU w).c = w.c := by unfold hbOffU; split <;> simp
+@[simp] theorem hbOffU_cg (w : World) : (hbOffU w).cg = w.cg := by unfold hbOffU; split <;> simp
+@[simp] theorem hbOffU_initBad (w : World) : (hbOffU w).initBad = w.initBad := by unfold hbOffU; split <;> simp
 @[simp] theorem raise_c (w : World) (m : String) : (raise w m).w.c = w.c := by simp [raise, emit]
 @[simp] theorem raise_cg (w : World) (m : String) : (raise w m).w.cg = w.cg := by simp [raise, emit]
 @[simp] theorem raise_initBad (w : World) (m : String) : (raise w m).w.initBad = w.initBad := by simp [raise, emit]
